@@ -218,10 +218,11 @@ class C15(Check):
             n += 1
             r = getattr(o, "raw", None)
             pf = getattr(o, "parsed", "!missing")
+            nx = getattr(o, "next", "!missing")
             out.append([type(o).__name__, pf if isinstance(pf, (bool, str)) else "!" + type(pf).__name__,
                         "none" if r is None else len(r) if isinstance(r, bytes) else "!" + type(r).__name__,
-                        "none" if o.next is None else "bytes" if isinstance(o.next, bytes) else "obj" if isinstance(o.next, self.packet_base) else "!" + type(o.next).__name__])
-            o = o.next
+                        "none" if nx is None else "bytes" if isinstance(nx, bytes) else "obj" if isinstance(nx, self.packet_base) else "!" + type(nx).__name__])
+            o = nx
         out.append(["none"] if o is None else ["bytes", len(o)] if isinstance(o, bytes) else ["!" + type(o).__name__])
         return out
 
@@ -232,7 +233,7 @@ class C15(Check):
             n += 1
             r = getattr(o, "raw", None)
             if isinstance(r, bytes) and r not in frame: return "raw of %s is not a slice of the frame" % type(o).__name__
-            o = o.next
+            o = getattr(o, "next", None)
         if isinstance(o, bytes) and o not in frame: return "terminal bytes are not a slice of the frame"
         return None
 
@@ -289,6 +290,13 @@ class C15(Check):
         return None
 
     def finding_key(self, case, obs, failure):
+        k = self._finding_key(case, obs, failure)
+        self.keys_seen[k] = self.keys_seen.get(k, 0) + 1
+        return k
+
+    keys_seen = {}
+
+    def _finding_key(self, case, obs, failure):
         if failure.startswith("ethernet(raw) raises"):
             x = obs["parse_exc"]; return "parse:%s:%s" % (x["where"], x["exc"])
         if failure.startswith("PacketIn.parsed raises"):
@@ -399,7 +407,7 @@ class C15(Check):
     def generate(self, rng, tier):
         frames = dict(self._frames)
         # 1. exhaustive single-byte corruption (thorough) / a deterministic slice of it (quick; the slice moves with the seed)
-        stride = 1 if tier == "thorough" else 12
+        stride = 1 if tier == "thorough" else 5
         phase = rng.randrange(stride)
         for j, (name, i, v) in enumerate(self.corruptions()):
             if j % stride != phase: continue
@@ -411,7 +419,7 @@ class C15(Check):
                 h = FR.fix_icmp6(g)
                 if h is not None and h != g: yield frame_case(h, "set+csum %s %d %02x" % (name, i, v))
         # 2. structure-aware and random
-        n = 6000 if tier == "quick" else 120000
+        n = 20000 if tier == "quick" else 250000
         for _ in range(n):
             yield self.g_structured(rng)
 
@@ -487,7 +495,7 @@ class C15(Check):
         for c in self.generate(rng, "thorough"): yield c
 
     def extra_evidence(self):
-        return {"technique": self.technique, "level_text": self.level_text, "level_note": self.level_note, "design_ref": self.design_ref}
+        return {"distinct_failure_keys": dict(sorted(self.keys_seen.items())), "technique": self.technique, "level_text": self.level_text, "level_note": self.level_note, "design_ref": self.design_ref}
 
 C15.theorems = ["Pox.C15." + t for t in (
     "parse_total_partial", "nesting_defect", "progress_recorded", "repack_total_partial", "print_total_partial", "refines_c14",
